@@ -901,7 +901,7 @@ func c20(c *rig.Ctx) {
 		c.Note("C20 worker is not running from the -race build")
 	}
 	c20Hooks()
-	c20Drive(c, "c20", c.Pick(400, 10000), []string{"all", "commits", "ws", "refs", "all"}, 0)
+	c20Drive(c, "c20", c.Pick(300, 10000), []string{"all", "commits", "ws", "refs", "all"}, 0)
 }
 
 // c20Drive runs |n| histories in batches (one store per batch) and reports.
